@@ -23,15 +23,16 @@ DELIM = 'pydoctor.epydoc.markup._pyval_repr._OperatorDelimiter'
 
 def _op_chain(f: Func, attr_chain: str = 'pyval.op') -> Dict[str, str]:
     """`if isinstance(<x>.op, ast.K): self._output('sym', ...)` chains -> {K: sym}."""
+    from ..cfg import if_branches
     out: Dict[str, str] = {}
     for n in f.walk():
         if not isinstance(n, ast.If):
             continue
-        t = n.test
+        t, yes, _no = if_branches(n)
         if isinstance(t, ast.Call) and call_name(t) == 'isinstance' and len(t.args) == 2 and \
                 isinstance(t.args[0], ast.Attribute) and t.args[0].attr == 'op':
             ks = t.args[1].elts if isinstance(t.args[1], ast.Tuple) else [t.args[1]]
-            syms = [const_str(c.args[0]) for st in n.body for c in ast.walk(st)
+            syms = [const_str(c.args[0]) for st in yes for c in ast.walk(st)
                     if isinstance(c, ast.Call) and call_name(c) == '_output' and c.args]
             syms = [s for s in syms if s is not None]
             for k in ks:
@@ -94,14 +95,15 @@ def run(repo: Repo, chk: Check, thorough: bool = False) -> None:
             if not isinstance(n, ast.If):
                 continue
             name = None
-            t = n.test
+            from ..cfg import if_branches as _ib
+            t, _yes, _no2 = _ib(n)
             if kind == 'live' and isinstance(t, ast.Compare) and isinstance(t.ops[0], ast.Is) and isinstance(t.comparators[0], ast.Name):
                 name = t.comparators[0].id
             if kind == 'ast' and isinstance(t, ast.Call) and call_name(t) == 'isinstance' and len(t.args) == 2:
                 name = (dotted(t.args[1]) or '').replace('ast.', '').lower()
             if name not in ('tuple', 'list', 'set', 'dict', 'frozenset'):
                 continue
-            for st in n.body:
+            for st in _yes:
                 for c in ast.walk(st):
                     if isinstance(c, ast.Call) and call_name(c) == '_multiline':
                         pre = next((k.value for k in c.keywords if k.arg == 'prefix'), None)
@@ -236,22 +238,20 @@ def run(repo: Repo, chk: Check, thorough: bool = False) -> None:
     chk.require('R15.3', 9)
 
     # ------------------------------------------------------------------ R15.4
-    top = [s for s in astf.node.body if isinstance(s, ast.If)]
-    ok = False
+    # the generic renderer is what remains when every dedicated test fails: every fact dominating its call is negative
+    cfga = CFG(astf)
+    gcalls = [c for c in calls_in(astf) if call_name(c) == '_colorize_ast_generic']
     nbranches = 0
-    if top:
-        cur: ast.If = top[-1]
-        while True:
-            nbranches += 1
-            if len(cur.orelse) == 1 and isinstance(cur.orelse[0], ast.If):
-                cur = cur.orelse[0]
-                continue
-            ok = bool(cur.orelse) and any(isinstance(c, ast.Call) and call_name(c) == '_colorize_ast_generic'
-                                          for st in cur.orelse for c in ast.walk(st))
-            break
+    ok = bool(gcalls)
+    for c in gcalls:
+        facts = cfga.dominating_tests(cfga.stmt_of(c))
+        typed = [(t, pol) for t, pol in facts if isinstance(t, ast.Call) and call_name(t) in ('isinstance', '_is_ast_constant')]
+        nbranches = max(nbranches, len(typed))
+        if not typed or any(pol for t, pol in typed):
+            ok = False
     chk.ob('R15.4', f'{COL}._colorize_ast :: unconditional generic fallback', ok,
-           f'{nbranches} dedicated branches, final else -> _colorize_ast_generic' if ok else
-           'the dispatch chain does not end in an unconditional else calling the generic (astor) renderer', astf.loc)
+           f'{nbranches} dedicated tests, the generic (astor) renderer is reached exactly when all of them fail' if ok else
+           'the generic (astor) renderer is not the catch-all of the dispatch (it is missing or guarded by a positive test)', astf.loc)
     gen = repo.func(f'{COL}._colorize_ast_generic')
     ok = any(call_name(c) == 'to_source' for c in calls_in(gen)) and \
         all(enclosing_trys(c, gen.node) for c in calls_in(gen) if call_name(c) == 'to_source')
